@@ -36,7 +36,6 @@ class ChainFinder(object):
                 h = self.parent_lookup.get(h)
                 if h is None:
                     break
-                new_hashes.discard(h)
                 preceding_path = self.trees_from_bottom.get(h)
                 if preceding_path:
                     del self.trees_from_bottom[h]
@@ -47,6 +46,11 @@ class ChainFinder(object):
                     )
                     break
                 path.append(h)
+                if h in new_hashes:
+                    # h has not been melded yet: stop here, so that this path waits
+                    # on h like every older path whose missing parent is h, and all
+                    # of them are extended together when h's turn comes
+                    break
             self.trees_from_bottom[path[0]] = path
 
             # if len(path) <= 1:
